@@ -13,6 +13,12 @@ CLAIMED = {
  "C13": ("interprocedural may-write (mod) analysis over SSA with a purity policy table (W1-W4)",
          "Static decision, for all inputs/paths/histories, that no function of the module may write configuration, package variables or caller inputs outside tables/purity.tsv; commitments written only through BatchNormalize. Over-approximating may-write analysis, so 'no write' holds on every path. Value-level clause (Cs stay Equal) not decided.",
          "4 C13, 3.1, 9.3"),
+ "C02": ("dominance / must-pass-through on the verifier CFGs, def-use binding, Fiat-Shamir schedule extraction vs spec table, exhaustive outcome evaluation of the Equal guard (F1-F6, E1, E4)",
+         "Static decision, for all inputs and paths, of the structural soundness clauses: 'true' can only come from the group-equation comparison; wrong shapes reach an error return, never acceptance or an unguarded index; every statement/proof component is absorbed with its own index before acceptance; schedules match the specification; Equal rejects the all-zero pseudo-point on all 16 outcomes. Agreement with a reference verifier on arbitrary inputs (the equation itself) is not decided.",
+         "4 C02, 3.2"),
+ "C14": ("post-dominance and ordering of calls in the transcript methods' CFGs, value-identity dataflow, write-effect analysis (F7, W1)",
+         "Static decision, for all call sequences, of: appends unconditional and complete; challenge = hash of everything pending, digest before reset, buffer cleared after hashing, same little-endian-reduced scalar re-absorbed and returned; canonical encodings absorbed; protocol label first; labels/messages never modified. SHA-256, the reduction arithmetic and collision resistance are not decided.",
+         "4 C14, 3.2 F7"),
 }
 NA_REASON = "check under construction (DESIGN.md 9.5 build order); no verdict claimed yet"
 
